@@ -29,7 +29,8 @@ ID = "C11"
 CLAIMED = True
 TITLE = "A timeout is a budget for the whole blocking operation"
 REQUIRED_THEOREMS = ["C11_retry_budget", "C11_zero_never_waits", "C11_timeout_only_if_blocked", "C11_receive_budget",
-                     "C11_send_budget", "C11_lock_included", "C11_iter_budget", "C11_udp_client_budget"]
+                     "C11_send_budget", "C11_lock_included", "C11_iter_budget", "C11_udp_client_budget",
+                     "C11_lock_released_iff_acquired"]
 LEVEL_TEXT = (
     "Machine-checked proof (Lean 4) on a statement-by-statement model of _retry, ElapsedTime.recompute_timeout, "
     "lock_with_timeout, the receive loop of the stream endpoint, send_all / the sendmsg loop and ClientRecvIterator: for every "
